@@ -184,6 +184,21 @@ pub fn hostile(rng: &mut Rng) -> (Vec<u8>, &'static str, Vec<&'static str>) {
     }
 }
 
+/// a deep chain (depth 20..=150) that fails part-way: mismatched end tag or nothing closed
+pub fn deep_hostile(rng: &mut Rng) -> (Vec<u8>, &'static str, Vec<&'static str>) {
+    let depth = rng.range(20, 150);
+    let mut v = Vec::new();
+    for i in 0..depth {
+        v.extend_from_slice(format!("<n{}>", i % 7).as_bytes());
+    }
+    match rng.below(3) {
+        0 => v.extend_from_slice(b"</wrong>"),
+        1 => v.extend_from_slice(b"<a b=1>"),
+        _ => {}
+    }
+    (v, "deep_failing_chain", vec![])
+}
+
 /// maximum open-tag depth of a byte string as a lenient flat scan sees it (used to enforce the
 /// "nested up to depth 200" bound of C07 without running the code under test)
 pub fn rough_depth(b: &[u8]) -> usize {
